@@ -304,7 +304,14 @@ def make_phonetic_event(shape):
             st.assume(z3.ULT(prev, m))     # the index returned with the list shown before
         cfg, opts = mk_config(prog, st, {"phonetic_suggestion": shape["sug"]})
         sel_map = SMap("selections", [])
-        pm = mk_phonetic_method(prog, buf, mk_phonetic_suggestion(prog, shown), sel_map, prev)
+        # the memo of earlier words: one entry under an arbitrary key (what a longer word's suffix joining will ask for) and any number of others
+        memo_key = (st.sym_char("memo_key", 0x21, 0x7e),)
+        memo_val = SVec([mk_rank(prog, "Other", [st.sym_char("memo_cand")], st.sym_bv("memo_dist", 8))])
+        others = st.sym_bv("memo_other_entries", 64)
+        st.assume(z3.ULT(others, 1 << 32))
+        memo = SMap("cache", [[memo_key, memo_val]], extra=others)
+        ctx.update(memo=memo, memo_key=memo_key, memo_val=memo_val, others=others)
+        pm = mk_phonetic_method(prog, buf, mk_phonetic_suggestion(prog, shown, cache=memo), sel_map, prev)
         key = st.sym_bv("key", 16)
         mod = st.sym_bv("modifier", 8)
         sel = st.sym_bv("selection", 8)
@@ -346,7 +353,7 @@ def make_phonetic_event(shape):
                  "backspace": {"op": "backspace", "ctrl": bool(model_value(mm, c["ctrl"]))},
                  "commit": {"op": "commit", "index": int(model_value(mm, c["index"]))}, "finish": {"op": "finish"}}[ev]
             return dict(buffer=model_string(mm, c["buf"]), event=e, shown=m, returns=k, sug=shape["sug"],
-                        prev_selection=int(model_value(mm, c["prev"])),
+                        prev_selection=int(model_value(mm, c["prev"])), memo_other_entries=int(model_value(mm, c["others"])),
                         shown_items=[[2, model_string(mm, x.fields[0].elems), int(model_value(mm, x.fields[1]))] for x in c["shown"]])
 
         def pred(mm):
@@ -401,6 +408,9 @@ def make_phonetic_event(shape):
                     clauses.append(("nonempty_return_means_ongoing", ongb is True))
                 elif ev == "backspace":
                     clauses.append(("empty_return_ends_session", ongb is False))
+        # the memo is a pure cache the suffix joining of longer words reads without recomputing: no event of a word drops an entry
+        kept = [e for e in c["memo"].entries if e[0] is c["memo_key"] and e[1] is c["memo_val"]]
+        clauses.append(("memo_entries_survive_the_event", len(kept) == 1 and len(c["memo_val"].items) == 1))
         # commit writes only when a different candidate was chosen
         if ev == "commit":
             changed = c.get("writes", 0) > 0 or len(c["sel_map"].entries) > 0
@@ -600,6 +610,8 @@ def obl_phonetic_glue(check, max_n, budget_s=None):
             found = selection_search(vs[0])
         elif "selection_inside_list" in key or "list_not_empty" in key:
             found = selection_search_other(vs[0])
+        elif vs[0]["clause"] == "memo_entries_survive_the_event":
+            found = memo_eviction_search()
         elif vs[0]["clause"] in ("flag_matches_state", "terminating_event_clears_composition", "idle_backspace_starts_nothing", "backspace_progress",
                                  "nonempty_return_means_ongoing", "empty_return_ends_session"):
             found = session_search_phonetic(vs[0])
@@ -623,6 +635,45 @@ def obl_phonetic_glue(check, max_n, budget_s=None):
         if worst[st] > worst[status]:
             status = st
     check.obligation(name, "mirsym", status, detail + "; %d counterexample models" % len(vio))
+
+
+def memo_eviction_search():
+    """Native: one context composes several hundred different suffixed words one after the other (each inside a bracket or quote, each
+    adding entries to the memo at every key); every one of them must get the list a newly created context gives for the same keys.
+    Six runs start at different places of the word list, so that whatever happens at a certain memo size happens in the middle of
+    different words."""
+    import obl_assembly
+    keys = obl_assembly.char_keys()
+    cfg = {"layout": "avro_phonetic", "database": REPO + "/data", "opts": {"phonetic_suggestion": True}}
+    cons = "bcdghjklmnprstz"
+    bases = [c + v for v in "aiueo" for c in cons] + [c + v + d for v in "aoi" for c in cons for d in "lmnr"]
+    probes = [("(" if i % 2 == 0 else "\"") + b + ("gulo" if i % 3 else "der") for i, b in enumerate(bases)]
+    fresh = [{"steps": [{"op": "new", "config": cfg}] + [{"op": "key", "key": keys[ch], "sel": 0} for ch in t]} for t in probes]
+    warms, orders = [], []
+    for shift in range(6):
+        k = (shift * 41) % len(probes)
+        order = list(range(k, len(probes))) + list(range(k))
+        steps = [{"op": "new", "ctx": 0, "config": cfg}]
+        marks = []
+        for i in order:
+            steps += [{"op": "key", "ctx": 0, "key": keys[ch], "sel": 0} for ch in probes[i]]
+            marks.append(len(steps) - 1)
+            steps.append({"op": "finish", "ctx": 0})
+        warms.append({"steps": steps})
+        orders.append((order, marks))
+    res = run_replay_parallel(fresh + warms)
+    ref = [r["results"][-1].get("suggestion", {}).get("list") for r in res[:len(fresh)]]
+    for (order, marks), sc, r in zip(orders, warms, res[len(fresh):]):
+        w = r["results"]
+        for n, (i, mk) in enumerate(zip(order, marks)):
+            a = w[mk]
+            if "panic" in a:
+                return {"steps": sc["steps"][:mk + 1]}, a, "composing %r as word %d of one context panics: %s" % (probes[i], n + 1, a["panic"])
+            la = a.get("suggestion", {}).get("list")
+            if la != ref[i]:
+                return ({"steps": sc["steps"][:mk + 1]}, a,
+                        "a context that has composed %d other words answers %r with %s; a newly created context answers the same keys with %s" % (n, probes[i], la, ref[i]))
+    return None
 
 
 # ------------------------------------------------------------------------- C10: user files in any state
@@ -767,6 +818,15 @@ def make_userfile(shape):
             sel_failed = any(n in ("fs_read", "from_slice") and not g for n, g in log[:2])
             if sel_failed:
                 clauses.append(("unreadable_store_is_treated_as_absent", isinstance(sel, SMap) and len(sel.entries) == 0 and sel.oracle is None and sel not in c.get("loaded", [])))
+        if ev == "update":
+            # re-loading keeps working whatever the files look like: the word in progress, the list it was shown with and the learned
+            # choices are what the next commit / key relies on
+            ps_now = pm_field(prog, pm, "suggestion")
+            shown_now = ps_now.fields[prog.structs["PhoneticSuggestion"].index("suggestions")] if isinstance(ps_now, Agg) else None
+            buf = pm_field(prog, pm, "buffer").elems
+            after = [(k, tuple(v.elems)) for k, v in c["sel_map"].entries]
+            same_sel = pm_field(prog, pm, "selections") is c["sel_map"] and after == c["before"]
+            clauses.append(("reload_keeps_the_word_in_progress", bool(isinstance(shown_now, SVec) and len(shown_now.items) == 2 and list(buf) == [0x61] and same_sel)))
         if ev == "commit":
             # a failed save loses at most that one learned choice
             after = [(k, tuple(v.elems)) for k, v in c["sel_map"].entries]
@@ -825,6 +885,34 @@ def userfile_native(vs, ev):
     return out
 
 
+def reload_midword_native():
+    """Native: the user auto-correct file changes state (removed, emptied, damaged, rewritten) while a word is being composed and the
+    configuration is re-loaded; committing any shown candidate, typing on and erasing must keep working."""
+    import obl_assembly
+    keys = obl_assembly.char_keys()
+    cfg = {"layout": "avro_phonetic", "database": REPO + "/data", "opts": {"phonetic_suggestion": True}}
+    before = [("a valid user auto-correct file", [{"op": "write_user_file", "name": "autocorrect.json", "content": "{\"xyz\":\"ami\"}"}]), ("no user auto-correct file", [])]
+    faults = [("removed", [{"op": "remove_user_file", "name": "autocorrect.json"}]),
+              ("emptied", [{"op": "write_user_file", "name": "autocorrect.json", "content": "", "mtime_plus": 5}]),
+              ("damaged", [{"op": "write_user_file", "name": "autocorrect.json", "content": "{\"a", "mtime_plus": 5}]),
+              ("rewritten", [{"op": "write_user_file", "name": "autocorrect.json", "content": "{\"abc\":\"tumi\"}", "mtime_plus": 5}]),
+              ("gone with its directory", [{"op": "remove_user_dir"}])]
+    scs, names = [], []
+    for bn, bsteps in before:
+        for fn2, fsteps in faults:
+            for tail in ([{"op": "commit", "index": 1}], [{"op": "commit", "index": 0}], [{"op": "key", "key": keys["r"], "sel": 0}, {"op": "commit", "index": 1}],
+                         [{"op": "backspace"}, {"op": "backspace"}, {"op": "backspace"}, {"op": "backspace"}]):
+                steps = bsteps + [{"op": "new", "config": cfg}] + [{"op": "key", "key": keys[ch], "sel": 0} for ch in "ami"] + fsteps + [{"op": "update", "config": cfg}] + tail + \
+                        [{"op": "key", "key": keys["a"], "sel": 0}]
+                scs.append({"steps": steps})
+                names.append("%s, then %s while the word 'ami' is being composed, configuration re-loaded" % (bn, fn2))
+    for name, sc, r in zip(names, scs, run_replay(scs)):
+        for x in r["results"]:
+            if "panic" in x:
+                return name, sc, x
+    return None
+
+
 def obl_userfiles(check, budget_s=None):
     shapes = [dict(event="new"), dict(event="update"), dict(event="commit")]
     check.bounds["userfile_faults"] = dict(events="context creation (PhoneticMethod::new), update_engine, candidate_committed",
@@ -850,6 +938,15 @@ def obl_userfiles(check, budget_s=None):
     for v in vio:
         by_ev.setdefault((v["inputs"]["event"], v["clause"]), []).append(v)
     for (ev, clause), vs in sorted(by_ev.items()):
+        if clause == "reload_keeps_the_word_in_progress":
+            found = reload_midword_native()
+            if found:
+                fname, sc, obs = found
+                check.stats["traces_validated"] += 1
+                st = check.finding("user files: " + fname, "%s: %s" % (fname, obs.get("panic", obs)), dict(scenario=sc, observed=obs, solver_counterexample=vs[0]["inputs"]))
+                if worst[st] > worst[status]:
+                    status = st
+                continue
         if clause != "no_panic":
             check.obligation(name + ":" + clause, "mirsym", "inconclusive", "state clause violated under the environment oracle, no native search for it: %s" % json.dumps(vs[0]["inputs"])[:300])
             status = "inconclusive" if worst["inconclusive"] > worst[status] else status
